@@ -172,7 +172,42 @@ def gen_case_c14(seed: int, s: int, w: int, tier: str) -> dict:
     }
 
 
+SWEEP_EVERY = 3  # every third C02 / C04 scenario id is a sweep scenario
+
+
+def gen_sweep_c02(seed: int, s: int, w: int, tier: str) -> dict:
+    """One caller, no pre-emption: many (X, Y) queries on one graph, each worker under its own hash seed and
+    construction history.  Buys volume for the reference-model and cross-interpreter oracles (rare structures:
+    several treatments, bow arcs, treatments screened off by other treatments)."""
+    rng = random.Random(f"{seed}:C02:{s}")
+    g = world.gen_graph(rng, 3, 7, acyclic=True, pb_choices=(0.2, 0.3, 0.5, 0.7), pd_choices=(0.3, 0.5, 0.8), p_iso=0.05)
+    m = world.world_model(g)
+    nodes = sorted(m.N)
+    queries, script = [], []
+    seen = set()
+    for _ in range(70):
+        nx_ = min(_wchoice(rng, [(1, 0.3), (2, 0.4), (3, 0.3)]), len(nodes) - 1)
+        X = sorted(rng.sample(nodes, nx_))
+        rest = [n for n in nodes if n not in X]
+        Y = sorted(rng.sample(rest, min(_wchoice(rng, [(1, 0.6), (2, 0.3), (3, 0.1)]), len(rest))))
+        if (tuple(X), tuple(Y)) in seen:
+            continue
+        seen.add((tuple(X), tuple(Y)))
+        queries.append({"g": 0, "X": X, "Y": Y})
+        script.append({"op": _wchoice(rng, [("identify_outcomes", 0.6), ("identify", 0.2), ("identify_fresh", 0.2)]),
+                       "q": len(queries) - 1, "form": "sets"})
+    rng_w = random.Random(f"{seed}:C02:{s}:w{w}")
+    return {
+        "prop": "C02", "seed": seed, "scenario": s, "worker": w, "kind": "sweep",
+        "graphs": [g], "histories": [world.gen_history(rng_w, g)], "queries": queries,
+        "rounds": [{"scripts": {"c0": script}}],
+        "pops": [{"name": "seq", "policy": "seq", "notrace": True}],
+    }
+
+
 def gen_case_c02(seed: int, s: int, w: int, tier: str) -> dict:
+    if s % SWEEP_EVERY == SWEEP_EVERY - 1:
+        return gen_sweep_c02(seed, s, w, tier)
     rng = random.Random(f"{seed}:C02:{s}")
     ngraphs = _wchoice(rng, [(1, 0.7), (2, 0.3)])
     graphs = [world.gen_graph(rng, 2, 7, acyclic=True, pb_choices=(0.1, 0.3, 0.5, 0.7), pd_choices=(0.3, 0.5, 0.8),
@@ -236,8 +271,29 @@ def gen_case_c02(seed: int, s: int, w: int, tier: str) -> dict:
     }
 
 
+def gen_sweep_c04(seed: int, s: int, w: int, tier: str) -> dict:
+    """One caller, no pre-emption: many (a, b | C) queries on one graph under this worker's hash seed and history."""
+    rng = random.Random(f"{seed}:C04:{s}")
+    g = world.gen_graph(rng, 3, 8, acyclic=True, pb_choices=(0.15, 0.3, 0.5), pd_choices=(0.1, 0.2, 0.4), p_iso=0.05)
+    m = world.world_model(g)
+    script = []
+    for _ in range(60):
+        sp = gen_dsep_op(rng, ["g", 0], m)
+        if sp is not None:
+            script.append(sp)
+    rng_w = random.Random(f"{seed}:C04:{s}:w{w}")
+    return {
+        "prop": "C04", "seed": seed, "scenario": s, "worker": w, "kind": "sweep",
+        "graphs": [g], "histories": [world.gen_history(rng_w, g)],
+        "rounds": [{"scripts": {"c0": script}}],
+        "pops": [{"name": "seq", "policy": "seq", "notrace": True}],
+    }
+
+
 def gen_case_c04(seed: int, s: int, w: int, tier: str) -> dict:
     """Separation queries by 2-4 callers on shared ADMGs that keep being edited between rounds."""
+    if s % SWEEP_EVERY == SWEEP_EVERY - 1:
+        return gen_sweep_c04(seed, s, w, tier)
     rng = random.Random(f"{seed}:C04:{s}")
     ngraphs = _wchoice(rng, [(1, 0.7), (2, 0.3)])
     graphs = [world.gen_graph(rng, 2, 7, acyclic=True, pb_choices=(0.1, 0.3, 0.5), pd_choices=(0.15, 0.3, 0.5),
